@@ -585,8 +585,16 @@ def run_case(case, R):
 
 
 def run_cases(chunk, R):
-    for case in chunk:
-        run_case(case, R)
+    global TMP
+    try:
+        for case in chunk:
+            run_case(case, R)
+    finally:
+        # pool workers are terminated without running atexit handlers
+        if TMP is not None and TMP[0] == os.getpid():
+            import shutil
+            shutil.rmtree(TMP[1], ignore_errors=True)
+            TMP = None
 
 
 def replay(case):
